@@ -59,6 +59,8 @@ const (
 	TESetLowerNN // the same with header-name normalising disabled on the response
 	TEAddLowerNN
 	TECLCorrect // Header.Set("Content-Length", <the length of the body>) after the body API
+	TEDelCL     // Header.Del("Content-Length") after the body API
+	TEEmptyCL   // Header.Set("Content-Length", "") after the body API
 	nTE
 )
 
@@ -81,6 +83,8 @@ type Prog struct {
 	TE      int    `json:"te,omitempty"`    // the handler sets a Transfer-Encoding field itself (TE* constants)
 	// StatusLast: the status code is set after the body API instead of before it
 	StatusLast bool `json:"status_last,omitempty"`
+	// LimitExtra: BStreamLimited only - the LimitedReader's N is Size+LimitExtra ("at most N"), the reader ends after Size bytes
+	LimitExtra int `json:"limit_extra,omitempty"`
 }
 
 type Req struct {
@@ -197,6 +201,10 @@ func (p Prog) run(ctx *app.RequestContext, salt byte) {
 			ctx.Response.Header.Add("transfer-encoding", "chunked")
 		case TECLCorrect:
 			ctx.Response.Header.Set("Content-Length", strconv.Itoa(len(data)))
+		case TEDelCL:
+			ctx.Response.Header.Del("Content-Length")
+		case TEEmptyCL:
+			ctx.Response.Header.Set("Content-Length", "")
 		}
 		if p.StatusLast {
 			ctx.SetStatusCode(p.Status)
@@ -218,7 +226,7 @@ func (p Prog) run(ctx *app.RequestContext, salt byte) {
 	case BStreamChunked:
 		ctx.SetBodyStream(&chunkReader{b: data, mode: p.Reader}, -1)
 	case BStreamLimited:
-		ctx.SetBodyStream(&io.LimitedReader{R: &chunkReader{b: data, mode: p.Reader}, N: int64(len(data))}, -1)
+		ctx.SetBodyStream(&io.LimitedReader{R: &chunkReader{b: data, mode: p.Reader}, N: int64(len(data) + p.LimitExtra)}, -1)
 	case BHijack:
 		ctx.Response.HijackWriter(resp.NewChunkedBodyWriter(&ctx.Response, ctx.GetWriter()))
 		var reuse []byte
@@ -240,6 +248,8 @@ func (p Prog) run(ctx *app.RequestContext, salt byte) {
 				ctx.Write(reuse) //nolint:errcheck
 			case 'f':
 				ctx.Flush() //nolint:errcheck
+			case 'a':
+				ctx.AbortWithMsg("backend failed", 500)
 			}
 		}
 	}
@@ -327,6 +337,9 @@ func (w *worker) exec(c *mc.Ctx, cs Case) {
 	}
 	for i, m := range fin {
 		p, r := cs.Progs[i], cs.Reqs[i]
+		if p.Body == BHijack && strings.Contains(p.Ops, "a") {
+			continue // an abort in the middle of the response: only "one well-formed message, the next one starts where it ends" is demanded
+		}
 		if p.Body == BNotFound {
 			p.Status = 404
 		}
@@ -405,7 +418,7 @@ var statuses = []int{101, 200, 204, 206, 301, 304, 404, 500}
 var sizes = []int{0, 1, 4095, 4096, 4097, 8191, 8192, 8193}
 
 func hijackOps() []string {
-	al := "01kfr" // 'r': Write(4096) from ONE buffer the handler refills before every such write (io.Copy does that)
+	al := "01kfra" // 'a': ctx.AbortWithMsg in the middle of the hijacked response (an error after part of the body went out) // 'r': Write(4096) from ONE buffer the handler refills before every such write (io.Copy does that)
 	var out []string
 	var rec func(s string)
 	rec = func(s string) {
@@ -455,6 +468,11 @@ func programs(thorough bool) []Prog {
 			for _, n := range []int{0, 1, 5, 4097} {
 				for _, b := range []int{BSetBody, BAppendWrite, BStreamLen, BStreamChunked, BStreamLimited} {
 					out = append(out, Prog{Status: st, Body: b, Size: n, Close: cl, StatusLast: true})
+				}
+			}
+			for _, n := range []int{0, 5, 4097} {
+				for _, rd := range []int{RAll, R4096} {
+					out = append(out, Prog{Status: st, Body: BStreamLimited, Size: n, Reader: rd, Close: cl, LimitExtra: 1019})
 				}
 			}
 			if st == 200 || st == 204 {
